@@ -27,6 +27,8 @@
 #include <Bpp/Numeric/Function/SimpleNewtonMultiDimensions.h>
 
 #include <algorithm>
+#include <functional>
+#include <iostream>
 #include <map>
 #include <memory>
 
@@ -520,12 +522,29 @@ public:
   const Monitor* mon_;
   vector<unsigned long long> marks_;
   vector<unsigned> counters_; // the optimiser's own evaluation counter at the end of every step
-  StepListener(const Monitor* mon) : mon_(mon), marks_(), counters_() {}
-  void optimizationInitializationPerformed(const OptimizationEvent&) override {}
+  // (runs with a user-installed stop condition only) the iterates as a client sees them: getParameters() / getFunctionValue() when
+  // init() has finished (entry 0) and at the end of every iteration - exactly what a stop condition on parameters / function values compares
+  bool track_;
+  vector<vector<double>> pts_;
+  vector<double> fvals_;
+  StepListener(const Monitor* mon) : mon_(mon), marks_(), counters_(), track_(false), pts_(), fvals_() {}
+  void snapshot(const OptimizerInterface* o)
+  {
+    const ParameterList& pl = o->getParameters();
+    vector<double> x(pl.size());
+    for (size_t i = 0; i < pl.size(); ++i) x[i] = pl[i].getValue();
+    pts_.push_back(x);
+    fvals_.push_back(o->getFunctionValue());
+  }
+  void optimizationInitializationPerformed(const OptimizationEvent& ev) override
+  {
+    if (track_) { pts_.clear(); fvals_.clear(); snapshot(ev.getOptimizer()); }
+  }
   void optimizationStepPerformed(const OptimizationEvent& ev) override
   {
     marks_.push_back(mon_->nEval);
     counters_.push_back(ev.getOptimizer()->getNumberOfEvaluations());
+    if (track_) snapshot(ev.getOptimizer());
   }
   bool listenerModifiesParameters() const override { return false; }
 };
@@ -570,7 +589,16 @@ struct Ctx
   Box qBox;                                 // its constraints
   Box warmBox;                              // mode 3: the constraints of the warm-up run
   Variant variant;                          // level / scale / flat-far variant of (objective, start)
-  Ctx() : kind(BFGS), tol(0), generous(true), cap(0), clone(false), reuse(false), reuseMode(0), coord(0), xinf(0), xsup(0), smin(0), q(0), metaN(1) {}
+  // How the optimiser object that is run got its configuration (budget, tolerance, stop condition, constraint policy, verbosity, handlers,
+  // initial interval ...): 0 configured directly; 1 clone() of a configured source; 2 copy construction from it; 3 assignment `target = source`
+  // to a separately constructed object.  The source is destroyed before the copy is used.  `clone` == (copyMode != 0).
+  int copyMode;
+  bool decoy;       // assignment: the target carried a configuration of its own (other policy, tolerance 0.01, budget 1000000, own stop condition) before
+  // Stop condition: 0 the optimiser's default one; 1 user-installed ParametersStopCondition(tol); 2 user-installed FunctionStopCondition(tol)
+  int stopKind;
+  bool stopAfterInit; // installed on the initialised optimiser (after init() of the judged run) rather than at configuration time
+  string shape;       // decoupled / already optimal coordinates (text)
+  Ctx() : kind(BFGS), tol(0), generous(true), cap(0), clone(false), reuse(false), reuseMode(0), copyMode(0), decoy(false), stopKind(0), stopAfterInit(false), coord(0), xinf(0), xsup(0), smin(0), q(0), metaN(1) {}
   // 1-D
   size_t coord;
   double xinf, xsup;
@@ -620,6 +648,18 @@ struct Ctx
     return false;
   }
   string consClass() const { return !box.any ? "cons=none" : box.startOnBound ? "cons=start-on-bound" : "cons=some"; }
+  string copyClass() const { return copyMode == 1 ? ":clone" : copyMode == 2 ? ":copy-constructed" : copyMode == 3 ? (decoy ? ":assigned-over-configured" : ":assigned") : ""; }
+  string copyText() const
+  {
+    return copyMode == 1 ? " (cloned optimiser)" : copyMode == 2 ? " (copy-constructed optimiser)" :
+           copyMode == 3 ? string(" (optimiser configured by assignment from a configured source") + (decoy ? "; the target had policy/tolerance 0.01/budget 1000000/FunctionStopCondition of its own before)" : ")") : "";
+  }
+  string stopClass() const { return stopKind == 1 ? "user-parameters-stop" : stopKind == 2 ? "user-function-stop" : "default-stop"; }
+  string stopText() const
+  {
+    if (!stopKind) return "";
+    return string(" stop-condition=") + (stopKind == 1 ? "ParametersStopCondition" : "FunctionStopCondition") + "(tol) installed " + (stopAfterInit ? "after init()" : "before init()");
+  }
   string reuseClass() const
   {
     if (!reuse) return "";
@@ -636,8 +676,8 @@ struct Ctx
   string text() const
   {
     string s = optName() + " policy=" + policy + " " + pb.family() + " n=" + str(pb.n) + " kappa=" + str(pb.kappa) + " lmin=" + str(pb.lmin) + " fmin=" + str(pb.c) + (pb.quad ? string() : " ridge=" + str(pb.mu)) +
-        " tol=" + str(tol) + " maxEval=" + str(cap) + (clone ? " (cloned optimiser)" : "") + reuseText() + variant.text() + " m=" + vrt::vecStr(pb.m) + " start=" + vrt::vecStr(start) + " f(start)=" + str(pb.eval(start)) +
-        " constraints={" + box.text() + "}";
+        " tol=" + str(tol) + " maxEval=" + str(cap) + stopText() + copyText() + reuseText() + variant.text() + " m=" + vrt::vecStr(pb.m) + " start=" + vrt::vecStr(start) + " f(start)=" + str(pb.eval(start)) +
+        " constraints={" + box.text() + "}" + shape;
     if (isOneD(kind)) s += " coord=" + str(coord) + " interval=[" + str(xinf) + "," + str(xsup) + "] slice-min=" + str(smin) + " start@" + startPos;
     if (kind == META)
     {
@@ -691,25 +731,76 @@ void silence(OptimizerInterface& o)
   o.setVerbose(0);
 }
 
+// ParametersStopCondition's constructors write a "DEBUG: WARNING" line to std::cout when the optimiser is not initialised yet
+// (installing the condition at configuration time is nevertheless the order every client uses, init() initialises the condition):
+// std::cout is muted while the condition is constructed.
+struct CoutMute
+{
+  streambuf* old_;
+  CoutMute() : old_(cout.rdbuf(nullptr)) {}
+  ~CoutMute() { cout.rdbuf(old_); }
+};
+
+// user-installed stop condition (general conditions of OptimizationStopCondition.h) with the tolerance of the case
+void installStop(const Ctx& c, OptimizerInterface& o)
+{
+  if (c.stopKind == 1)
+  {
+    CoutMute mute;
+    o.setStopCondition(make_shared<ParametersStopCondition>(&o, c.tol));
+  }
+  else if (c.stopKind == 2)
+    o.setStopCondition(make_shared<FunctionStopCondition>(&o, c.tol));
+}
+
+// the constructed, not yet configured optimiser
+shared_ptr<OptimizerInterface> makeRaw(const Ctx& c, shared_ptr<Objective> obj)
+{
+  if (c.kind != META) return makeBasic(c.kind, obj);
+  unique_ptr<MetaOptimizerInfos> desc(new MetaOptimizerInfos());
+  for (size_t i = 0; i < c.parts.size(); ++i)
+  {
+    shared_ptr<OptimizerInterface> in = makeBasic(c.parts[i].kind, obj);
+    silence(*in);
+    vector<string> names;
+    for (size_t k = 0; k < c.parts[i].coords.size(); ++k) names.push_back(obj->names_[c.parts[i].coords[k]]);
+    unsigned short der = (c.parts[i].kind == BFGS || c.parts[i].kind == CG) ? 1 : (c.parts[i].kind == SIMPLENEWTON || c.parts[i].kind == NEWTON1D) ? 2 : 0;
+    desc->addOptimizer(string(kindName(c.parts[i].kind)) + str(i), in, names, der, c.parts[i].full ? MetaOptimizerInfos::IT_TYPE_FULL : MetaOptimizerInfos::IT_TYPE_STEP);
+  }
+  return make_shared<MetaOptimizer>(obj, std::move(desc), c.metaN);
+}
+
+// copy construction / assignment need the static type
+template<class T>
+shared_ptr<OptimizerInterface> copyTyped(const OptimizerInterface& src, int mode, const function<shared_ptr<OptimizerInterface>()>& target)
+{
+  const T& s = dynamic_cast<const T&>(src);
+  if (mode == 2) return make_shared<T>(s);
+  shared_ptr<OptimizerInterface> t = target();
+  dynamic_cast<T&>(*t) = s;
+  return t;
+}
+
+shared_ptr<OptimizerInterface> copyOptimizer(Kind k, const OptimizerInterface& src, int mode, const function<shared_ptr<OptimizerInterface>()>& target)
+{
+  switch (k)
+  {
+  case BFGS: return copyTyped<BfgsMultiDimensions>(src, mode, target);
+  case CG: return copyTyped<ConjugateGradientMultiDimensions>(src, mode, target);
+  case POWELL: return copyTyped<PowellMultiDimensions>(src, mode, target);
+  case DOWNHILL: return copyTyped<DownhillSimplexMethod>(src, mode, target);
+  case SIMPLE: return copyTyped<SimpleMultiDimensions>(src, mode, target);
+  case SIMPLENEWTON: return copyTyped<SimpleNewtonMultiDimensions>(src, mode, target);
+  case BRENT_OUT: case BRENT_IN: return copyTyped<BrentOneDimension>(src, mode, target);
+  case GOLDEN: return copyTyped<GoldenSectionSearch>(src, mode, target);
+  case NEWTON1D: return copyTyped<NewtonOneDimension>(src, mode, target);
+  default: return copyTyped<MetaOptimizer>(src, mode, target);
+  }
+}
+
 shared_ptr<OptimizerInterface> makeOptimizer(const Ctx& c, shared_ptr<Objective> obj)
 {
-  shared_ptr<OptimizerInterface> o;
-  if (c.kind == META)
-  {
-    unique_ptr<MetaOptimizerInfos> desc(new MetaOptimizerInfos());
-    for (size_t i = 0; i < c.parts.size(); ++i)
-    {
-      shared_ptr<OptimizerInterface> in = makeBasic(c.parts[i].kind, obj);
-      silence(*in);
-      vector<string> names;
-      for (size_t k = 0; k < c.parts[i].coords.size(); ++k) names.push_back(obj->names_[c.parts[i].coords[k]]);
-      unsigned short der = (c.parts[i].kind == BFGS || c.parts[i].kind == CG) ? 1 : (c.parts[i].kind == SIMPLENEWTON || c.parts[i].kind == NEWTON1D) ? 2 : 0;
-      desc->addOptimizer(string(kindName(c.parts[i].kind)) + str(i), in, names, der, c.parts[i].full ? MetaOptimizerInfos::IT_TYPE_FULL : MetaOptimizerInfos::IT_TYPE_STEP);
-    }
-    o = make_shared<MetaOptimizer>(obj, std::move(desc), c.metaN);
-  }
-  else
-    o = makeBasic(c.kind, obj);
+  shared_ptr<OptimizerInterface> o = makeRaw(c, obj);
   silence(*o);
   o->setConstraintPolicy(c.policy);
   o->getStopCondition()->setTolerance(c.tol);
@@ -721,10 +812,30 @@ shared_ptr<OptimizerInterface> makeOptimizer(const Ctx& c, shared_ptr<Objective>
     b.setBracketing(c.kind == BRENT_IN ? BrentOneDimension::BRACKET_INWARD : BrentOneDimension::BRACKET_OUTWARD);
   }
   if (c.kind == GOLDEN) dynamic_cast<GoldenSectionSearch&>(*o).setInitialInterval(c.xinf, c.xsup);
-  if (c.clone)
+  if (c.stopKind && !c.stopAfterInit) installStop(c, *o);
+  if (c.copyMode == 1)
   {
     // a configured optimiser is copied and the original destroyed before the copy is used
     shared_ptr<OptimizerInterface> cp(o->clone());
+    o.reset();
+    o = cp;
+  }
+  else if (c.copyMode == 2 || c.copyMode == 3)
+  {
+    // ... copy-constructed, or assigned to a separately constructed object: a copy has the whole configuration of its source
+    // (evaluation budget, tolerance, stop condition, constraint policy, verbosity, handlers, initial interval, sub-optimisers)
+    shared_ptr<OptimizerInterface> cp = copyOptimizer(c.kind, *o, c.copyMode, [&]() {
+          shared_ptr<OptimizerInterface> t = makeRaw(c, obj);
+          silence(*t);
+          if (c.decoy)
+          {
+            // the target was in use with another configuration: all of it is replaced by the assignment
+            t->setConstraintPolicy(c.policy == AutoParameter::CONSTRAINTS_AUTO ? AutoParameter::CONSTRAINTS_KEEP : AutoParameter::CONSTRAINTS_AUTO);
+            t->setStopCondition(make_shared<FunctionStopCondition>(t.get(), 0.01));
+            t->setMaximumNumberOfEvaluations(1000000);
+          }
+          return t;
+        });
     o.reset();
     o = cp;
   }
@@ -749,6 +860,8 @@ struct RunResult
   vector<double> valsToLastStep; // values of the evaluations made by init() and by the iterations (not by the final re-evaluation)
   double offset;                 // g(q): contribution of the parameters that are not handed to the judged run (constant during that run)
   unsigned long long nExtraMoved;
+  vector<vector<double>> pts;    // user-installed stop condition: getParameters() after init() and after every iteration
+  vector<double> fvals;          // ... and getFunctionValue()
 };
 
 const double F_SLACK = 1e-10;     // descent slack, relative to 1+|f(start)|
@@ -811,8 +924,10 @@ RunResult runOptimizer(const Ctx& c, const vector<size_t>& coords, Monitor& mon,
           r.offset = obj->extraValue();
           mon.extraRef = obj->xq_;
         }
+        lis->track_ = c.stopKind != 0;
         opt->addOptimizationListener(lis);
         opt->init(pl);
+        if (c.stopKind && c.stopAfterInit) installStop(c, *opt);
       });
   r.eInit = mon.nEval;
   if (!r.init.returned()) { r.opt = r.init; r.eTotal = mon.nEval; r.touched = mon.touched; r.nInfeasible = mon.nInfeasible; r.firstBad = mon.firstBad; r.firstBadAt = mon.firstBadAt; return r; }
@@ -832,6 +947,8 @@ RunResult runOptimizer(const Ctx& c, const vector<size_t>& coords, Monitor& mon,
     r.eBeforeLastStep = lis->marks_.size() >= 2 ? lis->marks_[lis->marks_.size() - 2] - r.eInit : 0;
     r.counterBeforeLastStep = lis->counters_.size() >= 2 ? lis->counters_[lis->counters_.size() - 2] : 0;
   }
+  r.pts = lis->pts_;
+  r.fvals = lis->fvals_;
   if (!r.opt.returned()) return r;
   vrt::Outcome q = vrt::capture([&] {
         r.fval = opt->getFunctionValue();
@@ -966,7 +1083,7 @@ void judgeRunImpl(const Ctx& c, const vector<size_t>& coords, const RunResult& r
 
   const double fr = c.pb.eval(r.x);
   const string stop = r.tolReached ? "stop=tol" : "stop=cap";
-  vrt::cover(grp + ":" + base + ":" + c.pb.family() + ":" + (c.pb.n == 1 ? "n1" : c.pb.n <= 3 ? "n2-3" : "n4-6") + ":" + c.consClass() + (constrained && r.touched ? "+touched" : "") + ":" + budgetClass(c) + ":" + stop + (c.clone ? ":clone" : "") + c.reuseClass() + c.variant.cls() + (f0 < 1 ? ":f(start)<1" : ""));
+  vrt::cover(grp + ":" + base + ":" + c.pb.family() + ":" + (c.pb.n == 1 ? "n1" : c.pb.n <= 3 ? "n2-3" : "n4-6") + ":" + c.consClass() + (constrained && r.touched ? "+touched" : "") + ":" + budgetClass(c) + ":" + stop + c.copyClass() + (c.stopKind ? ":" + c.stopClass() + (c.stopAfterInit ? "@init" : "") : "") + c.reuseClass() + c.variant.cls() + (f0 < 1 ? ":f(start)<1" : ""));
 
   // (1) descent
   vrt::expect(fr <= f0 + F_SLACK * (1 + fabs(f0)), "descent", base + ":" + stop, [&] {
@@ -1010,7 +1127,7 @@ void judgeRunImpl(const Ctx& c, const vector<size_t>& coords, const RunResult& r
   // evaluated points whose values have a relative spread 2|yhi-ylo|/(|yhi|+|ylo|) below the tolerance, and the best point ever
   // evaluated is a vertex (a trial point better than the worst vertex always enters the simplex).  Hence at least n+1 of the
   // recorded evaluations lie within that spread of the lowest recorded value, and so does the reported value.
-  if (c.kind == DOWNHILL && r.tolReached && r.steps >= 1)
+  if (c.kind == DOWNHILL && c.stopKind == 0 && r.tolReached && r.steps >= 1)
   {
     double ymin = INF;
     for (size_t i = 0; i < r.valsToLastStep.size(); ++i) ymin = min(ymin, r.valsToLastStep[i]);
@@ -1028,6 +1145,37 @@ void judgeRunImpl(const Ctx& c, const vector<size_t>& coords, const RunResult& r
         });
   }
 
+  // (5b) user-installed general stop condition: what "tolerance reached" certifies, as documented in OptimizationStopCondition.h.
+  // ParametersStopCondition: "stops the optimization when for all i |lambda_i,t - lambda_i,t-1| <= tolerance" (every parameter, not some);
+  // FunctionStopCondition: "... when |f(lambda_t) - f(lambda_t-1)| <= tolerance".  The iterates are those a client sees (getParameters() /
+  // getFunctionValue() after init() and at the end of every iteration).  Any objective, any policy, any budget.  Not judged where the
+  // optimiser ends a run by a rule of its own: the coordinate-wise optimisers over a single parameter (one 1-D optimisation is the whole
+  // work), BFGS when an iteration increased the function (it gives up with a message).
+  if (c.stopKind != 0 && r.tolReached && r.steps >= 1 && r.pts.size() == r.steps + 1)
+  {
+    const vector<double>& xa = r.pts[r.steps - 1];
+    const vector<double>& xb = r.pts[r.steps];
+    const double va = r.fvals[r.steps - 1], vb = r.fvals[r.steps];
+    bool ownRule = ((c.kind == SIMPLE || c.kind == SIMPLENEWTON) && coords.size() <= 1) || (c.kind == BFGS && vb > va);
+    if (ownRule) vrt::counted("converge.user-stop-own-rule-unjudged");
+    else if (c.stopKind == 1)
+    {
+      size_t worst = 0;
+      double dmax = -1;
+      for (size_t i = 0; i < xb.size() && i < xa.size(); ++i)
+        if (fabs(xb[i] - xa[i]) > dmax) { dmax = fabs(xb[i] - xa[i]); worst = i; }
+      const string pos = xb.size() <= 1 ? "single" : worst + 1 == xb.size() ? "last" : "not-last";
+      vrt::expect(xa.size() == xb.size() && dmax <= c.tol * (1 + 1e-12), "converge.user-stop-rule", base + ":parameters:mover=" + pos, [&] {
+            return c.text() + " => isToleranceReached() after " + str(r.steps) + " iterations, but during the last one parameter #" + str(worst) + " of " + str(xb.size()) + " moved by " + str(dmax) + " > tolerance " + str(c.tol) +
+            ": " + vrt::vecStr(xa) + " -> " + vrt::vecStr(xb) + " (reported f-fmin=" + str(fr - c.pb.c) + ")";
+          });
+    }
+    else
+      vrt::expect(fabs(vb - va) <= c.tol * (1 + 1e-12), "converge.user-stop-rule", base + ":function", [&] {
+            return c.text() + " => isToleranceReached() after " + str(r.steps) + " iterations, but the last one changed the function value by " + str(fabs(vb - va)) + " > tolerance " + str(c.tol) + " (" + str(va) + " -> " + str(vb) + ")";
+          });
+  }
+
   // (5) convergence: quadratic, constraints absent / removed / never approached, tolerance reported as reached
   bool inactive = !constrained || c.policy == AutoParameter::CONSTRAINTS_IGNORE || !r.touched;
   if (c.pb.quad && inactive && c.generous)
@@ -1036,6 +1184,30 @@ void judgeRunImpl(const Ctx& c, const vector<size_t>& coords, const RunResult& r
     {
       vrt::counted("converge.cap-exhausted-unjudged");
       vrt::tally("cap-exhausted:" + base);
+    }
+    else if (c.stopKind != 0 && (c.kind == DOWNHILL || (c.stopKind == 1 && c.kind != SIMPLE && c.kind != SIMPLENEWTON)))
+    {
+      // User-installed condition for which no distance to the minimiser follows from the rule: the simplex reports its best vertex,
+      // which stays where it is (same point, same value) during every iteration that only replaces another vertex; for the direction-set /
+      // gradient methods "no parameter moved by more than tol" bounds the step, not the gradient.  Judged by (5b) only.
+      vrt::counted("converge.user-stop-gap-unjudged");
+    }
+    else if (c.stopKind == 1 && coords.size() >= 2)
+    {
+      // ParametersStopCondition on the coordinate-wise optimisers (SimpleMultiDimensions: Brent per coordinate at relative tolerance tol,
+      // SimpleNewtonMultiDimensions: exact Newton step per coordinate).  When no coordinate moved by more than tol during a sweep: coordinate k
+      // was left within e = 4 (tol |x_k| + 1e-10) of its slice minimiser (Brent's stop rule, see dxBoundOneD), so df/dx_k <= Q_kk e then, and the
+      // later moves of the sweep (|d_j| <= tol) change it by at most |Q_k.| |d| <= lmax sqrt(n) tol.  Hence |grad|^2 <= n lmax^2 (e + n tol)^2 and
+      // gap <= |grad|^2 / (2 lmin) = n lmax kappa (e + n tol)^2 / 2; K = 100 and the resolution floor as everywhere.
+      double ax = 1;
+      for (size_t i = 0; i < r.x.size(); ++i) ax = max(ax, fabs(r.x[i]));
+      const double nn = static_cast<double>(c.pb.n);
+      const double e = (4 * ax + nn) * c.tol + 4e-10;
+      const double bound = KCONV * 0.5 * nn * c.pb.lmax * c.pb.kappa * e * e + KCONV * floorF(c.pb);
+      margin("converge:" + on + ":user-parameters-stop", fr - c.pb.c, bound);
+      vrt::expect(fr - c.pb.c <= bound, "converge.quadratic", base + ":user-parameters-stop", [&] {
+            return c.text() + " => reported " + vrt::vecStr(r.x) + " f-fmin=" + str(fr - c.pb.c) + " > bound " + str(bound) + " although isToleranceReached() (" + str(r.eTotal) + " evaluations, " + str(r.steps) + " steps)";
+          });
     }
     else if (c.simplexLowDim() && grp != "known" && vrt::known("C10-downhill-stop-rule"))
     {
@@ -1124,6 +1296,21 @@ void pickReuse(vrt::Rng& rng, Ctx& c, const vector<size_t>& coords)
   }
 }
 
+// How the optimiser object got its configuration (side stream derived from (VERIF_SEED, group, case index): the draws of the main stream are
+// unchanged).  The cases that used clone() are split between clone(), copy construction and assignment; one fresh case in ten becomes a
+// copy-constructed or an assigned one.  A copy is a configured optimiser like any other: every clause applies unchanged, in particular the
+// evaluation budget and the tolerance set on the source are those of the run.
+void pickCopy(const vrt::Case& cs, Ctx& c)
+{
+  vrt::Rng side(vrt::mix(vrt::mix(cs.seed, vrt::hashStr("C10/copy/" + cs.group)), cs.index));
+  const size_t r = side.below(100);
+  const bool d = side.chance(0.5);
+  if (c.clone) c.copyMode = r < 34 ? 1 : r < 60 ? 2 : 3;
+  else if (r < 10) c.copyMode = r < 4 ? 2 : 3;
+  c.decoy = c.copyMode == 3 && d;
+  c.clone = c.copyMode != 0;
+}
+
 // ------------------------------------------------------------------------------------------------
 // group "multi": BFGS, CG, Powell, downhill simplex, SimpleMultiDimensions, SimpleNewtonMultiDimensions
 // ------------------------------------------------------------------------------------------------
@@ -1148,6 +1335,7 @@ void caseMulti(vrt::Case& cs)
   vector<size_t> coords;
   for (size_t i = 0; i < n; ++i) coords.push_back(i);
   pickReuse(rng, c, coords);
+  pickCopy(cs, c);
   vrt::describe(c.sigName() + ":" + c.policy + ":" + c.pb.family(), c.text());
   Monitor mon;
   shared_ptr<Objective> obj;
@@ -1238,6 +1426,7 @@ void caseOneD(vrt::Case& cs)
   c.metaN = 1;
   vector<size_t> coords(1, c.coord);
   pickReuse(rng, c, coords);
+  pickCopy(cs, c);
   vrt::describe(c.sigName() + ":" + c.policy + ":" + c.pb.family(), c.text());
   Monitor mon;
   shared_ptr<Objective> obj;
@@ -1301,6 +1490,7 @@ void caseMeta(vrt::Case& cs)
   vector<size_t> coords;
   for (size_t i = 0; i < n; ++i) coords.push_back(i);
   pickReuse(rng, c, coords);
+  pickCopy(cs, c);
   vrt::describe(c.sigName() + ":" + c.policy + ":" + c.pb.family(), c.text());
   Monitor mon;
   shared_ptr<Objective> obj;
@@ -1351,12 +1541,81 @@ void caseMetaPrecision(vrt::Case& cs)
   c.parts[0].full = rng.chance(0.8);
   vector<size_t> coords = allCoords(n);
   pickReuse(rng, c, coords);
+  pickCopy(cs, c);
   vrt::cover(string("metaprec:inner:") + kindName(ik) + (c.parts[0].full ? "/full" : "/step") + ":steps=" + str(c.metaN) + (c.pb.eval(c.start) < 1 ? ":f(start)<1" : ":f(start)>=1"));
   vrt::describe(c.sigName() + ":" + c.policy + ":" + c.pb.family(), c.text());
   Monitor mon;
   shared_ptr<Objective> obj;
   RunResult r = runOptimizer(c, coords, mon, obj);
   judgeRun(c, coords, r, "metaprec");
+}
+
+// ------------------------------------------------------------------------------------------------
+// group "stopcond": user-installed general stop conditions and copied configurations.
+// The six multi-dimensional optimisers (index driven) x 1..6 parameters (index driven) with setStopCondition(ParametersStopCondition(tol))
+// (60 %) or setStopCondition(FunctionStopCondition(tol)), installed at configuration time (before init(), carried over by copies) or on the
+// initialised optimiser.  Quadratics (75 %) may have decoupled parameters (rows / columns of Q reduced to their diagonal entry: a principal
+// sub-matrix plus diagonal entries of an SPD matrix, eigenvalues stay inside [lmin,lmax]), some of which start at their optimum: parameters
+// that do not move, or stop moving long before the others, at any position of the list.  Optimiser object configured directly (40 %), or
+// obtained by clone() / copy construction / assignment from the configured source (20 % each; half of the assignment targets had another
+// configuration before).  Judged by judgeRun(): all clauses, plus the documented meaning of the installed condition (5b).
+// ------------------------------------------------------------------------------------------------
+void caseStopCond(vrt::Case& cs)
+{
+  vrt::Rng& rng = cs.rng;
+  Ctx c;
+  c.kind = static_cast<Kind>(cs.index % 6);
+  size_t n = 1 + (cs.index / 6) % 6;
+  bool quad = rng.chance(0.75);
+  c.pb = genProblem(rng, n, quad, rng.chance(0.5));
+  c.start = genStart(rng, c.pb);
+  // decoupled / already optimal parameters
+  if (quad && n >= 2 && rng.chance(0.65))
+  {
+    vector<bool> dec(n, false);
+    size_t nd = 0;
+    for (size_t i = 0; i < n; ++i) if (rng.chance(0.4)) { dec[i] = true; ++nd; }
+    if (rng.chance(0.3) && !dec[n - 1]) { dec[n - 1] = true; ++nd; }
+    if (nd == 0) { dec[rng.below(n)] = true; nd = 1; }
+    if (nd == n) { dec[rng.below(n)] = false; --nd; }
+    string sh = " decoupled={";
+    for (size_t i = 0; i < n; ++i)
+    {
+      if (!dec[i]) continue;
+      for (size_t j = 0; j < n; ++j) if (j != i) c.pb.Q[i * n + j] = c.pb.Q[j * n + i] = 0;
+      bool opt = rng.chance(0.6);
+      if (opt) c.start[i] = c.pb.m[i];
+      sh += "p" + str(i) + (opt ? "@optimum " : " ");
+    }
+    c.shape = sh + "}";
+    // the start stays non-optimal: the remaining displacement is enlarged if necessary
+    for (int it = 0; it < 60 && c.pb.eval(c.start) - c.pb.c < 1e-3 * (1 + fabs(c.pb.c)); ++it)
+      for (size_t i = 0; i < n; ++i)
+        if (!dec[i]) c.start[i] = c.pb.m[i] + 2 * (c.start[i] - c.pb.m[i]) + (c.start[i] == c.pb.m[i] ? 0.05 : 0.0);
+    vrt::cover(string("stopcond:shape:decoupled") + (dec[n - 1] ? ":last" : "") + (dec[0] ? ":first" : ""));
+  }
+  c.box = genBox(rng, c.start, c.pb.m, rng.chance(0.4));
+  c.policy = policyOf(rng.below(3));
+  c.tol = pickTol(rng);
+  pickBudget(rng, c);
+  c.stopKind = rng.chance(0.6) ? 1 : 2;
+  c.stopAfterInit = rng.chance(0.3);
+  {
+    size_t r = rng.below(10);
+    c.copyMode = r < 4 ? 0 : r < 6 ? 1 : r < 8 ? 2 : 3;
+    c.decoy = rng.chance(0.5) && c.copyMode == 3;
+    c.clone = c.copyMode != 0;
+  }
+  c.reuse = rng.chance(0.1);
+  c.coord = 0; c.xinf = c.xsup = c.smin = c.q = 0; c.metaN = 1;
+  vector<size_t> coords = allCoords(n);
+  pickReuse(rng, c, coords);
+  vrt::cover(string("stopcond:") + kindName(c.kind) + ":" + c.stopClass() + (c.stopAfterInit ? "@init" : "") + c.copyClass());
+  vrt::describe(c.sigName() + ":" + c.policy + ":" + c.pb.family(), c.text());
+  Monitor mon;
+  shared_ptr<Objective> obj;
+  RunResult r = runOptimizer(c, coords, mon, obj);
+  judgeRun(c, coords, r, "stopcond");
 }
 
 // ------------------------------------------------------------------------------------------------
@@ -1686,6 +1945,7 @@ int main(int argc, char** argv)
     { "oned", 4000, 120000, caseOneD, 600, false },
     { "meta", 2000, 60000, caseMeta, 600, false },
     { "metaprec", 4200, 63000, caseMetaPrecision, 600, false },
+    { "stopcond", 3000, 60000, caseStopCond, 600, false },
     { "line", 3000, 90000, caseLine, 600, false },
     { "bracket", 3000, 90000, caseBracket, 600, false },
     { "known-meta-downhill-step", 3, 3, caseKnownMetaDownhillStep, 600, false },
@@ -1701,7 +1961,12 @@ int main(int argc, char** argv)
       "objectives and on 1-D slices of n-D ones; initial interval with the start at an end or inside. meta: MetaOptimizer over 1..3 sub-optimisers (7 kinds, iteration type step/full) on a random partition of the parameters "
       "(a part may be empty), 1..4 progressive-precision steps. metaprec: MetaOptimizer with one sub-optimiser (6 kinds - not the simplex -, index-driven; type full 80 %) over all parameters, 2..4 progressive-precision steps (index-driven), "
       "minimum value and / or whole objective scaled down by factors in [1e-6,1] (60 % each, independently). Variants (side stream derived from seed, group, index): multi / oned / meta: 25 % minimum value lowered by a factor in [1e-3,1), "
-      "15 % whole objective scaled down by such a factor; non-quadratic objectives 35 %: ridge reduced by 1e-7..1e-1 and start moved away from the minimiser by a factor 1..30 (nearly flat far start). line: NewtonBacktrackOneDimension on a DirectionFunction, lineSearch, lineMinimization along Newton / steepest / random descent directions. "
+      "15 % whole objective scaled down by such a factor; non-quadratic objectives 35 %: ridge reduced by 1e-7..1e-1 and start moved away from the minimiser by a factor 1..30 (nearly flat far start). "
+      "stopcond: the six multi-dimensional optimisers (index-driven) x 1..6 parameters (index-driven) with a user-installed ParametersStopCondition(tol) (60 %) or FunctionStopCondition(tol), installed before init() or on the initialised optimiser; "
+      "quadratics (75 %) with, in 65 % of the cases with >= 2 parameters, a random non-empty proper subset of decoupled parameters (60 % of them starting at their optimum); optimiser configured directly (40 %) or obtained by clone() / copy construction / assignment "
+      "from the configured source (20 % each; half of the assignment targets carried another configuration before). Copies in the other optimiser groups (side stream): the former clone() cases are split between clone(), copy construction and assignment, "
+      "and one fresh case in ten becomes copy-constructed or assigned. "
+      "line: NewtonBacktrackOneDimension on a DirectionFunction, lineSearch, lineMinimization along Newton / steepest / random descent directions. "
       "bracket: bracketMinimum / inwardBracketMinimum on convex slices. A class key = (group, optimiser, policy, objective family, dimension class, constraint class incl. whether a bound was approached, budget class, "
       "stop by tolerance or by budget, clone / kind of re-use, objective variant, starting value below 1) resp. (line tool, policy, family, direction kind, constraint class, accepted abscissa class) resp. (bracketing routine, family, position of the minimiser); each key is a complete optimisation run.";
   meta.assumptions = {
@@ -1721,9 +1986,14 @@ int main(int argc, char** argv)
     "warm-up constraints are absent under the keep policy (a raising warm-up is not wanted), arbitrary intervals containing warm-up start and minimiser otherwise",
     "objective variants stay inside the quantifier (any level / scale of the objective, any convex non-quadratic function, any start): the objective is only ever scaled DOWN (every convergence bound is either scale-free or "
     "contains the absolute term tol (1+|fmin|) and explicit curvatures, so it only gets more generous); a lowered ridge / far start is judged for descent, consistency, budget and feasibility only (non-quadratic)",
+    "an optimiser obtained by clone(), copy construction or assignment from a configured source (source destroyed before use) is a configured optimiser like any other: budget, tolerance, stop condition, policy of the source are those of the run, every clause applies unchanged",
+    "user-installed general stop condition (documented: ParametersStopCondition stops when EVERY parameter moved by <= tol during the last iteration, FunctionStopCondition when the function value changed by <= tol): when isToleranceReached() "
+    "the last two iterates seen by a client (getParameters() / getFunctionValue() after init() resp. after each iteration) satisfy that rule; not judged where the optimiser ends by a rule of its own (coordinate-wise optimisers over one parameter, BFGS after a function increase). "
+    "Distance to the minimiser: FunctionStopCondition is the default rule of BFGS / CG / Simple / SimpleNewton and a stricter (absolute) form of Powell's, the existing bounds apply; ParametersStopCondition on the coordinate-wise optimisers: "
+    "gap <= 100 n lmax kappa ((4 max(1,|x|) + n) tol + 4e-10)^2 / 2 (+ floor); simplex and, under ParametersStopCondition, BFGS / CG / Powell: no distance follows from the rule, unjudged",
     "the objective's own parameters carry no constraint (it records, it does not police); AutoParameter / IntervalConstraint themselves are trusted here (property C01)",
   };
   meta.requiredClauses = { "run.returns", "descent", "consistent.returned", "consistent.getFunctionValue", "budget.counter", "budget.evaluations", "budget.counter-honest", "feasible.evaluations", "feasible.reported",
-                           "converge.quadratic", "converge.simplex-stop-rule", "converge.sufficient-decrease", "converge.line-minimum", "bracket.middle-lowest", "bracket.values" };
+                           "converge.quadratic", "converge.user-stop-rule", "converge.simplex-stop-rule", "converge.sufficient-decrease", "converge.line-minimum", "bracket.middle-lowest", "bracket.values" };
   return vrt::run(argc, argv, "C10", groups, meta);
 }
